@@ -123,11 +123,19 @@ InjectVerdict(ev) ==
   IF ev.same THEN "ok"
   ELSE "history:queries asked between the operations of a history change a later result: without them '" \o ev.a \o "', with them '" \o ev.b \o "'"
 
+\* the same queries repeated on one object and on a second, freshly decoded one: the harness reports a vector only
+\* when it saw more than one distinct answer (and, once, how many vectors it probed)
+RepeatVerdict(ev) ==
+  IF ev.same THEN "ok"
+  ELSE "nondeterministic:repeated queries on '" \o ev.s \o "' gave " \o ToString(Len(ev.vals)) \o " different answers: "
+         \o ev.vals[1] \o " | " \o ev.vals[2]
+
 Init == LoadTrace /\ TraceInit /\ prev = <<>> /\ ptab = "" /\ cur = -1
 StepO == /\ l <= Len(Trace)
          /\ LET ev == Trace[l]
                 v0 == IF ev.k = "order" THEN OrderVerdict(ev)
                       ELSE IF ev.k = "inject" THEN InjectVerdict(ev)
+                      ELSE IF ev.k = "repeat" THEN RepeatVerdict(ev)
                       ELSE IF ev.k # "step" THEN "harness:unknown event"
                       ELSE IF ev.i > 0 /\ ev.h # cur THEN "harness:history interleaved"
                       ELSE StepVerdict(ev)
